@@ -871,3 +871,77 @@ def classical_basis_index_rule(ctx, rid):
                    '' if ok else f'basis[{ast.unparse(idx)}] is indexed by a value that is not one of the positions the operation\'s qubits map to '
                    f'(positions: {sorted(lists)} / {sorted(elems)}): the gate acts on the wrong wires whenever its qubits are not the first ones of the simulator',
                    cls.mod.rel, n.lineno, construct=f'{cls.qual}._act_on_fallback_')
+
+
+def merged_state_rule(ctx, rid):
+    """The zero-qubit factor sim_states[None] accumulates global phases (and scalars of every gate applied to no qubit); every merged state must be built from it."""
+    from ..flow import name_deps
+    repo = ctx.repo
+    ctx.rule(rid, 'phase carrier: every value returned by SimulationProductState.create_merged_state depends on self.sim_states[None], the zero-qubit factor into which global phases are '
+             'multiplied - a result assembled from the other factors alone drops the phase', floor=2, style='TNT')
+    ps = repo.cls('cirq.sim.simulation_product_state.SimulationProductState')
+    fn = repo.method(ps.qual, 'create_merged_state')
+
+    def source_of(node):
+        if isinstance(node, ast.Subscript) and isinstance(node.slice, ast.Constant) and node.slice.value is None and ast.unparse(node.value).endswith('sim_states'):
+            return {'carrier'}
+        return None
+    deps = name_deps(fn, {}, source_of)
+    rets = [r for r in ast.walk(fn) if isinstance(r, ast.Return) and r.value is not None]
+    if not rets:
+        raise AnalysisError('create_merged_state: no return')
+    for k, r in enumerate(rets, 1):
+        labs = set()
+        for x in ast.walk(r.value):
+            if isinstance(x, ast.Name) and x.id in deps:
+                labs |= deps[x.id]
+            if source_of(x):
+                labs |= {'carrier'}
+        ok = 'carrier' in labs
+        ctx.ob(rid, f'{ps.qual}.create_merged_state:return#{k}', ok, '' if ok else f'`return {ast.unparse(r.value)[:70]}` is built without self.sim_states[None]: global phase operations '
+               'applied so far are lost from the merged state (final state vectors come out with the wrong phase)', ps.mod.rel, r.lineno)
+
+
+# gate classes after which every touched qubit is, by construction, unentangled with the rest (so an unchecked factor() is exact)
+DISENTANGLING = {
+    'MeasurementGate': 'a computational-basis measurement projects each measured qubit onto a basis state',
+    'ResetChannel': 'reset leaves the qubit in |0>',
+}
+
+
+def unchecked_factor_rule(ctx, rid):
+    repo = ctx.repo
+    ctx.rule(rid, 'unchecked factoring: every factor(..., validate=False) in cirq.sim sits under an isinstance test that admits only the tabled disentangling gate classes '
+             f'({", ".join(sorted(DISENTANGLING))}); for any other operation (e.g. a joint Pauli measurement, which leaves its qubits entangled) splitting without validation replaces '
+             'the state by a product state', floor=1, style='RG')
+    n = 0
+    for m in sorted(repo.modules.values(), key=lambda x: x.rel):
+        if not m.rel.startswith('cirq-core/cirq/sim/') or m.rel.endswith('_test.py'):
+            continue
+        par = None
+        for c in ast.walk(m.tree):
+            if not (isinstance(c, ast.Call) and isinstance(c.func, ast.Attribute) and c.func.attr == 'factor'
+                    and any(k.arg == 'validate' and isinstance(k.value, ast.Constant) and k.value.value is False for k in c.keywords)):
+                continue
+            if par is None:
+                par = m.parents()
+            n += 1
+            classes, node, fnname = None, c, '?'
+            while node in par:
+                p = par[node]
+                if isinstance(p, ast.If) and node in p.body:
+                    for t in ast.walk(p.test):
+                        if isinstance(t, ast.Call) and call_name(t) == 'isinstance' and len(t.args) == 2:
+                            cl = t.args[1].elts if isinstance(t.args[1], ast.Tuple) else [t.args[1]]
+                            classes = (classes or set()) | {ast.unparse(x).split('.')[-1] for x in cl}
+                if isinstance(p, (ast.FunctionDef, ast.AsyncFunctionDef)):
+                    fnname = p.name
+                    break
+                node = p
+            extra = sorted((classes or set()) - set(DISENTANGLING))
+            ok = classes is not None and not extra
+            ctx.ob(rid, f'{m.name}.{fnname}:factor(validate=False)', ok, '' if ok else
+                   (f'the unchecked factor() is also reached for {extra}: after such an operation the qubits may still be entangled, and the sub-states are split anyway' if classes is not None
+                    else 'the unchecked factor() is not guarded by a test on the gate class'), m.rel, c.lineno)
+    if n == 0:
+        raise AnalysisError(f'{rid}: no factor(validate=False) left in cirq.sim')
